@@ -126,6 +126,10 @@ func (m *runtimeContextManager) PushContext(ctx RuntimeContextDef) {
 	m.hardLimits = m.hardLimits.Remove(m.usedResources).Merge(ctx.HardLimits)
 	m.softLimits = m.hardLimits.Merge(m.softLimits).Merge(ctx.SoftLimits)
 	m.usedResources = RuntimeResources{}
+	// The CPU count restarts from 0, so must the CPU threshold at which the
+	// clock is next looked at (otherwise it is only looked at once this
+	// context has used as much CPU as its parent had).
+	m.nextCpuThreshold = 0
 	m.requiredFlags |= ctx.RequiredFlags
 
 	if ctx.HardLimits.Cpu > 0 {
